@@ -24,7 +24,7 @@ CLAIM = dict(
               "translator for dispatch tables, differential correspondence over a closed operand universe",
     design="7/C01")
 
-MODULES = ["Klong.Props.C01", "Klong.Props.C01Struct"]
+MODULES = ["Klong.Props.C01", "Klong.Props.C01Struct"]      # + C01Ext1 / C01Ext2 below
 THEOREMS = [
     "Klong.C01.atomic_dyad_correct",
     "Klong.C01.atomic_monad_correct",
@@ -235,6 +235,45 @@ def gen_cases(ctx):
     for verb in MONADS:
         for a in U.OPERANDS + counts:
             cases.append(("M", verb, a, None))
+    # ---- operands suggested by the extension models (negative / overshooting indices and cuts,
+    # collision lists for Range/Group, grades, deeper shapes, more reshape shapes and sources)
+    P = U.from_py
+    for a in seqs:
+        for b in [U.I(-1), U.I(-2), U.I(9), P([]), P([0, -1]), P([-9]), U.R(0.5)]:
+            cases.append(("D", "@", a, b))
+        for b in [U.I(-1), U.I(-2), U.I(9), P([3, 1]), P([1, -1])]:
+            cases.append(("D", ":_", b, a))
+    cases.append(("D", "@", U.L(U.I(1), U.S("a"), U.R(0.5)), P([0, 2])))
+    join_extra = [P([[1, 2], [3, 4]]), P([[[5, 6], [7, 8]]]), P([[1, 2]]), P([[[3, 4], [5, 6]]]), P([[0.5, 1.5]]),
+                  U.I(1), U.R(0.5), U.L(U.C("a")), U.L(U.C("b"), U.C("c"))]
+    for a in join_extra:
+        for b in join_extra:
+            cases.append(("D", ",", a, b))
+    syms = lambda n: ('L', [U.Y("s%d" % (i % 7)) for i in range(n)])
+    for a, b in [(U.S("a1b"), U.I(1)), (U.S("abc"), U.Y("b")), (P([1, [2], 3]), P([2])), (P([0.5, 1.0]), U.I(1)),
+                 (syms(127), U.Y("s3")), (syms(128), U.Y("s3")), (syms(129), U.Y("s3"))]:
+        cases.append(("D", "?", a, b))
+    for a, b in [(syms(128), syms(128)), (syms(129), syms(129)), (U.L(U.L(), U.S("")), U.L(U.S(""), U.L()))]:
+        cases.append(("D", "~", a, b))
+    for verb in ("<", ">"):
+        for a in [U.S("hello, world"), U.S("foobar"), U.S("mississippi"), P([5, -3, 2, 7]), P([100, -100, 0]),
+                  P([(i * 7) % 24 for i in range(24)]), P([1, 2, 3, 4, 5]), P([[1], [2], [3]])]:
+            cases.append(("M", verb, a, None))
+    collide = [U.L(U.S("a"), U.C("a")), U.L(U.I(1), U.S("1")), U.L(U.Y("a"), U.S("a")), U.L(U.Y("a"), U.Y("b"), U.Y("a")),
+               U.L(U.C("a"), U.C("b"), U.C("a")), U.L(U.S("ab"), U.S("cd"), U.S("ab")),
+               U.L(U.I(10), U.S("x"), U.I(10), U.C("x")), P([[1, 2], [3, 4], [1, 2]]), P([[3, 4], [1, 2], [3, 4], [1, 2]])]
+    for a in collide:
+        cases.append(("M", "?", a, None))
+        cases.append(("M", "=", a, None))
+    for a in [P([[[1, 2]], [[3, 4]]]), U.L(P([1, 2]), U.S("ab")), U.L(U.S("ab"), P([1, 2])), U.L(U.S("a"), U.S("b")),
+              U.L(U.L(U.C("a"), U.C("b")), U.S("ab")), U.L(U.L(U.S("ab"), U.S("cd")), U.L(U.S("ef"), U.S("gh")))]:
+        cases.append(("M", "^", a, None))
+    for a in [P([2, 1, 3]), P([4, 2]), P([7]), P([3, 1, 1]), P([1]), U.I(7), U.I(17)]:
+        for b in [P([1, 2, 3]), P([1]), U.I(5), U.R(0.5), U.C("a"), U.S("ab"), P([0.5, 1.5, 2.5, 3.5])]:
+            cases.append(("D", ":^", a, b))
+    for a in [U.S("abc"), U.L(U.L(), U.I(1)), U.Y("a"), U.I(-3)]:
+        for verb in ("~", "#", "!"):
+            cases.append(("M", verb, a, None))
     if quick:
         monads = [c for c in cases if c[0] == "M"]
         dyads = [c for c in cases if c[0] == "D"]
@@ -311,6 +350,9 @@ def classify_failure(c, ref, real):
         return "join:object-array-rank2"
     if ar == "D" and verb == ":^" and any(o[0] == 'y' for o in ops):
         return "reshape:symbol-atom"
+    if ar == "D" and verb == "," and real[0] == 'E' and all(o[0] == 'L' for o in ops) \
+            and len({len(np_shape(o)) for o in ops}) > 1:
+        return "join:numpy-repack-raises"
     if (any(U.has_mixed_numeric_level(o) for o in ops) or mixed_numeric_array(ref)) \
             and real[0] != 'E' and U.veq(ref, real, kinds=False):
         return "mixed-numeric-level"
